@@ -146,4 +146,63 @@ class C01b(Obligation):
             ctx.check(out.exc is None, 'get_context never raises inside the text')
 
 
-OBLIGATIONS = [C01a, C01b]
+COMPLETION_CORPUS = [
+    'if a:\n    pass\nel',
+    'total = box.value offset\nif x:\n    y\n',
+    'a.b c\ntry:\n    f(1) 2\nexc',
+    'for i in x:\n    i.\nimport os.\nfrom a import (b, ',
+    'def f(a, b=1, *, c):\n    return lambda q: q.\nclass K(f(1, ',
+    'with open(p) as fh, g() as \n    x = {1: [2, (3, ',
+]
+
+
+class C01e(Obligation):
+    id = 'C01.e'
+    title = 'completion front end is total: grammar-stack analysis of any broken buffer at any cursor never raises'
+    pattern = 'P4 concrete (broken) tree x symbolic cursor; the inference sinks of completion are stubs'
+    interpret_modules = ('jedi', 'parso', 'obligations')
+    loop_bound = 400
+    max_paths = 6000
+    assumptions = (
+        'Completion._complete_python is executed with the real parso stack machinery (get_stack_at_position re-parses '
+        'the text before the cursor natively once the symbolic column has been forked into a concrete one); the sinks '
+        'that need type inference (_complete_global_scope, _complete_trailer, _complete_inherited, _get_importer_names, '
+        '_complete_params, _complete_keywords, signatures) are stubs returning nothing',
+    )
+
+    def configs(self, tier):
+        n = 3 if tier == 'quick' else len(COMPLETION_CORPUS)
+        return [dict(snippet=i) for i in range(n)]
+
+    def scenario(self, ctx, cfg):
+        src = COMPLETION_CORPUS[cfg['snippet']]
+        script = jedi.Script(src)
+        module, lines = script._module_node, script._code_lines
+        line = ctx.int('line', 1, len(lines))
+        column = ctx.int('column', 0)
+        text = lines[line - 1]
+        ctx.assume(column <= (len(text.rstrip('\r\n')) if text.endswith('\n') else len(text)))
+        pos = (line, column)
+        comp = jcompletion.Completion.__new__(jcompletion.Completion)
+        comp._pysym_holder = True
+        comp._inference_state = Obj(grammar=script._inference_state.grammar)
+        comp._module_context = None
+        comp._module_node = module
+        comp._code_lines = lines
+        comp._original_position = pos
+        comp._signatures_callback = lambda l, c: []
+        comp._fuzzy = False
+        comp._like_name = ctx.run(helpers.get_on_completion_name, module, lines, pos)
+        comp._complete_global_scope = lambda: []
+        comp._complete_inherited = lambda is_function=True: []
+        comp._get_importer_names = lambda names, level=0, only_modules=True: []
+        comp._complete_trailer = lambda previous_leaf: (None, [])
+        comp._complete_params = lambda leaf: []
+        comp._complete_keywords = lambda allowed, only_values: []
+        leaf = ctx.run(module.get_leaf_for_position, pos, include_prefixes=True)
+        ctx.force(jcompletion.Completion._complete_python, jcompletion.Completion._is_parameter_completion)
+        out = ctx.call(comp._complete_python, leaf)
+        ctx.check(out.exc is None, '_complete_python never raises')
+
+
+OBLIGATIONS = [C01a, C01b, C01e]
